@@ -137,11 +137,22 @@ def part_tables(ctx, quick):
         same_parse(ctx, [q], [q.replace("(", "{").replace(")", "}")], "brackets")
         spaced = " ".join(q.replace("(", " ( ").replace(")", " ) ").split())
         same_parse(ctx, [spaced], [spaced.replace("(", "{").replace(")", "}")], "brackets-spaced")
-    for kw in ("select", "from", "where", "and", "or", "not", "order", "by", "group", "limit", "into", "asc", "desc"):
-        base_q = "select name, size from . where size > 1 and not name = 'x' or size < 0 group by name order by size desc, name asc limit 3 into csv"
-        for v in case_variants(r, kw):
-            var = re.sub(r"\b%s\b" % kw, v, base_q)
-            same_parse(ctx, [base_q], [var], "keyword-case:" + kw)
+    # every keyword in every clause position it can take: after a WHERE, directly after a root with options,
+    # after several roots, after a root without options
+    for base_q in ["select name, size from . where size > 1 and not name = 'x' or size < 0 group by name order by size desc, name asc limit 3 into csv",
+                   "select name, count(*) from . depth 2 dfs group by name",
+                   "select ext, count(*) from /tmp maxdepth 1 sym arc group by ext order by ext desc",
+                   "select name from . mindepth 1 bfs order by name asc limit 2",
+                   "select name from . depth 3 gitignore limit 2 into json",
+                   "select name from /tmp depth 1, /var mindepth 2 dfs into lines",
+                   "select name from a depth 1, b where not size > 1 or name = 'x' and size < 5",
+                   "select name, min(size) from . group by name limit 4"]:
+        for kw in ("select", "from", "where", "and", "or", "not", "order", "by", "group", "limit", "into", "asc", "desc"):
+            if not re.search(r"\b%s\b" % kw, base_q):
+                continue
+            for v in case_variants(r, kw):
+                var = re.sub(r"\b%s\b" % kw, v, base_q)
+                same_parse(ctx, [base_q], [var], "keyword-case:" + kw)
 
 
 def regroup(r, words, root_idx):
